@@ -129,7 +129,10 @@ def dev_cfg(wd, d):
     if d == "CloseDelimKeepsOpen":
         return cfg(wd, "dev_%s.cfg" % d, spec="FairSpec", req=(1, 0), resp=(2, 0), close=(1,), dev=[d], extra=LIVE)
     if d == "DeadBackendSpin":
-        return cfg(wd, "dev_%s.cfg" % d, front="h2", back="h1", req=(0, 0), resp=(3, 0), b=1, k=2, w0=1, dev=[d])
+        # four units: two unread in the client's kernel queue (WRITABLE withdrawn), one buffered, one parking the backend
+        # reader, the backend's end behind it (with three units - the instance used before - the guard of Dev_SpinKill is
+        # unreachable in the present model and the thorough tier ended with a tool error)
+        return cfg(wd, "dev_%s.cfg" % d, front="h2", back="h1", req=(0, 0), resp=(4, 0), b=1, k=2, w0=3, dev=[d])
     if d == "KeepAliveEosStale":
         return cfg(wd, "dev_%s.cfg" % d, n=2, front="h1", back="h2", req=(0, 0), resp=(1, 1), b=1, k=2, w0=2, dev=[d])
     return cfg(wd, "dev_%s.cfg" % d, front="h2", back="h2", req=(2, 0), resp=(3, 0), b=1, k=2, w0=2, dev=[d])
